@@ -73,3 +73,76 @@ Proof.
 Qed.
 
 End SwitchInvisible.
+
+(** * without side conditions on the analysis: a well-formed grammar whose characters and ranges are
+    code points in order is all that is needed *)
+From PegV Require Import Proofs.OptSwok.
+
+Section Strong.
+Variable g : grammar.
+Variable tab : list bool.
+Variable rank : list nat.
+Hypothesis Hwf : wf_b g tab rank = true.
+Hypothesis Hg : good_grammar g.
+Hypothesis Hro : forall r b, nth_error g r = Some (RBody b) -> ranges_ok b = true.
+
+Lemma g'_false T : g' g T (fun _ => false) = g.
+Proof.
+  unfold g'.
+  assert (E : forall (l : list rbody) s,
+            map (fun p => match snd p with RBody b => RBody (tr T ((fun _ : nat => false) (fst p)) b) | rb => rb end) (combine (seq s (length l)) l) = l).
+  { induction l as [|y l IH]; intros s; [reflexivity|]. cbn [length seq combine map fst snd]. rewrite IH. destruct y; reflexivity. }
+  apply E.
+Qed.
+
+Lemma optimize_unstable T : fs_table g = (T, false) -> optimize g = g.
+Proof. intros E. unfold optimize. rewrite E. reflexivity. Qed.
+
+Theorem plain_good_switches : good_switches g.
+Proof.
+  intros inline r b Hb. rewrite <- (g'_false []) at 1.
+  apply (swok_plain g [] (fun _ => false)). eapply Hro; eauto.
+Qed.
+
+Theorem optimize_good_switches : good_switches (optimize g).
+Proof.
+  destruct (fs_table g) as [T st] eqn:E. destruct st.
+  - rewrite (optimize_is_g' g T E). intros inline.
+    destruct (stable_fix g Hro T E) as [_ Hfix].
+    apply (g'_swok g T tab rank Hwf Hfix Hro).
+  - rewrite (optimize_unstable T E). exact plain_good_switches.
+Qed.
+
+Theorem optimize_good_grammar : good_grammar (optimize g).
+Proof.
+  destruct (fs_table g) as [T st] eqn:E. destruct st.
+  - rewrite (optimize_is_g' g T E). destruct (stable_fix g Hro T E) as [_ Hfix].
+    exact (g'_good g T tab rank Hwf Hfix Hro _ (fun _ => false) Hg).
+  - rewrite (optimize_unstable T E). exact Hg.
+Qed.
+
+Variable ptx : nat.
+Variable buf : list rune.
+Variable penv : nat -> nat -> bool.
+Hypothesis Hbuf : good_buf buf.
+Hypothesis Hvalid : valid_buf buf.
+
+Theorem c02_switch_invisible_strong memo memo' inline inline' r rb st0 st0' :
+  nth_error g r = Some rb -> rb <> RNil ->
+  slot_ok g inline r -> slot_ok (optimize g) inline' r ->
+  exists n b st1 st2,
+    machine g ptx buf penv memo inline n r st0 = Some (Ret b st1) /\
+    machine (optimize g) ptx buf penv memo' inline' n r st0' = Some (Ret b st2) /\
+    (b = true -> pos st1 = pos st2 /\ Machine.live st1 = Machine.live st2).
+Proof.
+  intros Hr Hn Hs Hs'.
+  destruct (fs_table g) as [T st] eqn:E. destruct st.
+  - eapply (c02_switch_invisible g tab rank Hwf (stable_opt_ok g Hro T E) Hg optimize_good_grammar plain_good_switches optimize_good_switches
+              ptx buf penv Hbuf Hvalid); eauto.
+  - rewrite (optimize_unstable T E) in *.
+    destruct (c01_total g ptx buf penv tab rank r rb Hwf Hr Hn) as (n & rr & H).
+    destruct (c02_inline_invisible g ptx buf penv Hg Hbuf plain_good_switches memo memo' inline inline' n r st0 st0' rr Hs Hs' H) as (b & s1 & s2 & A).
+    exists n, b, s1, s2. exact A.
+Qed.
+
+End Strong.
